@@ -296,7 +296,12 @@ func anyWriteFault(f []seam.Fired) bool {
 
 // probe runs one operation under every single fault (and a few random multi-fault runs).
 func probeOp(c *fw.Ctx, base *seam.MemStore, cfg v1x.Config, op *fop, universe [][]byte, hist string, initial int64, capFaults int) {
-	ref0, n := runFaulted(base, cfg, op, -1, seam.KAll, 0, 0, initial)
+	probeOpMask(c, base, cfg, op, universe, hist, initial, capFaults, seam.KAll)
+}
+
+// probeOpMask enumerates only the storage calls selected by mask.
+func probeOpMask(c *fw.Ctx, base *seam.MemStore, cfg v1x.Config, op *fop, universe [][]byte, hist string, initial int64, capFaults int, mask int) {
+	ref0, n := runFaulted(base, cfg, op, -1, mask, 0, 0, initial)
 	if ref0.err != nil || ref0.panic != "" {
 		c.Obs("ops_skipped_fail_without_fault", 1)
 		return
@@ -370,7 +375,7 @@ func probeOp(c *fw.Ctx, base *seam.MemStore, cfg v1x.Config, op *fop, universe [
 		step = (limit + capFaults - 1) / capFaults
 	}
 	for i := 0; i < limit; i += step {
-		fr, _ := runFaulted(base, cfg, op, i, seam.KAll, 0, 0, initial)
+		fr, _ := runFaulted(base, cfg, op, i, mask, 0, 0, initial)
 		judge(fr, "call", i)
 		if len(c.Res.Violations) > 12 {
 			return
@@ -505,7 +510,14 @@ func init() {
 							cf = 40
 							uni = nil
 						}
-						probeOp(c, seam.NewMemStore(), v1x.Config{Cache: 0, Fast: c.Rng.Intn(2) == 0, Backend: "mem", Flush: e.Cfg.Flush}, f, uni, fmt.Sprintf("import of version %d (%d nodes)", v, len(stream)), 0, cf)
+						icfg := v1x.Config{Cache: 0, Fast: c.Rng.Intn(2) == 0, Backend: "mem", Flush: e.Cfg.Flush}
+						ihist := fmt.Sprintf("import of version %d (%d nodes)", v, len(stream))
+						if big {
+							// a >10000-node import writes its nodes in background batches: every batch Write
+							// (there are only a few) fails once, plus an even sample of all other calls
+							probeOpMask(c, seam.NewMemStore(), icfg, f, uni, ihist+" [batch writes only]", 0, 100, seam.KBWrite)
+						}
+						probeOp(c, seam.NewMemStore(), icfg, f, uni, ihist, 0, cf)
 						writeProbed++
 					}
 				}
